@@ -451,6 +451,119 @@ fn paren_units() -> usize {
     paren_family().len().div_ceil(PAREN_CHUNK)
 }
 
+// ---------------------------------------------------------------- generated family: diagnostics that involve two files
+
+/// (case name, files (main first), acceptable anchors: (file name suffix, text that the primary range must lie inside
+/// or cover, i.e. one of the two is a substring of the other))
+#[allow(clippy::type_complexity)]
+fn cross_file_cases() -> Vec<(String, Vec<(String, String)>, Vec<(String, String)>)> {
+    let shapes = "// фигуры\ninterface Shape {\n  fn area(self) -> int\n  fn perimeter(self) -> int\n}\nfn twice(n: int) -> int = n * 2\ntype Cfg = {\n  depth: int\n}\n";
+    let mut v = vec![];
+    let mut add = |name: &str, main: &str, anchors: &[(&str, &str)]| {
+        v.push((
+            name.to_string(),
+            vec![("main.abra".to_string(), main.to_string()), ("shapes.abra".to_string(), shapes.to_string())],
+            anchors.iter().map(|(f, t)| (f.to_string(), t.to_string())).collect(),
+        ));
+    };
+    let imp = "implement Shape for Sq {\n  fn area(self) -> int = self.side * self.side\n}";
+    add(
+        "implementation of an imported interface misses a method",
+        &format!("use shapes\n// квадрат é: a square with an integer side; the offsets of this comment cover those of the interface in the other file ........\ntype Sq = {{\n  side: int\n}}\n{imp}\n"),
+        &[("shapes.abra", "perimeter"), ("main.abra", imp)],
+    );
+    let imp2 = "implement ToString for Sq {\n}";
+    add(
+        "implementation of a prelude interface misses its method",
+        &format!("// квадрат é\ntype Sq = {{\n  side: int\n}}\n{imp2}\n"),
+        &[("prelude.abra", "str"), ("main.abra", imp2)],
+    );
+    let imp3 = "implement Ord for Sq {\n  fn less_than(a, b) = a.side < b.side\n}";
+    add(
+        "implementation of the prelude's Ord misses three methods",
+        &format!("// квадрат é\ntype Sq = {{\n  side: int\n}}\nimplement Equal for Sq {{\n  fn equal(a, b) = a.side == b.side\n}}\n{imp3}\n"),
+        &[("prelude.abra", "less_than_or_equal"), ("prelude.abra", "greater_than"), ("prelude.abra", "greater_than_or_equal"), ("main.abra", imp3)],
+    );
+    add(
+        "wrong argument type for an imported function",
+        "use shapes\n// é\nlet r = twice(\"двa\")\n",
+        &[("main.abra", "twice(\"двa\")"), ("shapes.abra", "n: int")],
+    );
+    add(
+        "unknown field of an imported struct type",
+        "use shapes\n// é\nlet c = Cfg(1)\nlet d = c.zzfield\n",
+        &[("main.abra", "c.zzfield")],
+    );
+    v
+}
+
+fn run_cross_file(out: &mut UnitOut) {
+    for (idx, (name, files, anchors)) in cross_file_cases().into_iter().enumerate() {
+        if !out.begin_case(idx as u64) {
+            continue;
+        }
+        out.describe_case(&format!("{name}\n{}", files[0].1));
+        out.evaluations += 1;
+        out.count("cases of kind cross-file", 1);
+        out.nontrivial_text(&name);
+        let mut src = drive::Src::single(&files[0].1);
+        for (n, t) in &files[1..] {
+            src = src.add(n, t);
+        }
+        abra_core::verif::reset_counters(1);
+        let key = format!("input:{}", hkey(&name));
+        let r = drive::catch(|| {
+            let res = abra_core::check_lsp(&src.main, src.provider());
+            res.errors()
+                .into_iter()
+                .map(|e| {
+                    let fd = res.file_db.files.get(e.file_id as usize);
+                    let fname = fd.map(|f| f.absolute_path.to_string_lossy().to_string()).unwrap_or_else(|| format!("<unknown file id {}>", e.file_id));
+                    let cov = fd.and_then(|f| f.source.get(e.range.start..e.range.end).map(|x| x.to_string()));
+                    (e.message, fname, e.range.start, e.range.end, cov)
+                })
+                .collect::<Vec<_>>()
+        });
+        let diags = match r {
+            Ok(d) => d,
+            Err(p) => {
+                out.class("analysis panicked (C04/C34 territory, not judged here)");
+                out.count(&format!("analysis panic {}", p.site_key()), 1);
+                continue;
+            }
+        };
+        if diags.is_empty() {
+            out.class("VIOLATION");
+            out.violation(vec![key, "cause:no-diagnostic".into()], format!("{name}: the erroneous program was accepted without a diagnostic"), json!({"case": name, "files": files}));
+            continue;
+        }
+        // every diagnostic: the primary range must be readable in the file its id names and lie inside / cover an anchor
+        let mut bad = vec![];
+        for (msg, fname, lo, hi, cov) in &diags {
+            match cov {
+                None => bad.push(format!("diagnostic `{msg}`: range {lo}..{hi} is not a valid range of {fname}")),
+                Some(c) => {
+                    let ok = anchors.iter().any(|(af, at)| fname.ends_with(af.as_str()) && !c.is_empty() && (at.contains(c.as_str()) || c.contains(at.as_str())));
+                    if !ok {
+                        bad.push(format!("diagnostic `{msg}`: primary location {fname} {lo}..{hi} covers {c:?}, which is none of the places the error concerns ({anchors:?})"));
+                    }
+                }
+            }
+        }
+        if bad.is_empty() {
+            out.class("cross-file: primary locations name the right file and construct");
+            out.sample(json!({"case": name, "diagnostics": diags.iter().map(|d| json!({"message": d.0, "file": d.1, "range": [d.2, d.3], "covers": d.4})).collect::<Vec<_>>()}));
+        } else {
+            out.class("VIOLATION");
+            out.violation(
+                vec![key, "cause:primary-location-in-the-wrong-file-or-place".into()],
+                format!("{name}: {}", bad[0]),
+                json!({"case": name, "files": files, "problems": bad, "diagnostics": diags.iter().map(|d| json!({"message": d.0, "file": d.1, "range": [d.2, d.3], "covers": d.4})).collect::<Vec<_>>()}),
+            );
+        }
+    }
+}
+
 // ---------------------------------------------------------------- units
 
 fn base_files(tier: Tier) -> &'static Vec<usize> {
@@ -505,7 +618,7 @@ impl Prop for C33 {
         "exploration"
     }
     fn n_units(&self, tier: Tier) -> usize {
-        plan(tier).len() + paren_units()
+        plan(tier).len() + paren_units() + 1
     }
     fn expected_evaluations(&self, tier: Tier) -> Option<u64> {
         // 7 prefix variants of every mutation, + 2 where a string literal contains / precedes the site, + 1 for a bad escape
@@ -519,9 +632,14 @@ impl Prop for C33 {
             n += cache.as_ref().unwrap().1[lo..hi].iter().map(|m| n_variants(m) as u64).sum::<u64>();
         }
         n += paren_family().iter().map(|m| n_variants(m) as u64).sum::<u64>();
+        n += cross_file_cases().len() as u64;
         Some(n)
     }
     fn run_unit(&self, tier: Tier, unit: usize, out: &mut UnitOut) {
+        if unit == plan(tier).len() + paren_units() {
+            run_cross_file(out);
+            return;
+        }
         if unit >= plan(tier).len() {
             // the generated parenthesised-operand family (after the corpus units, whose numbers do not change)
             let fam = paren_family();
@@ -583,14 +701,15 @@ impl Prop for C33 {
              {} erroneous programs × up to {} variants {:?} (the first 7 for every mutation; the two in-literal variants where a single-line string literal starts on the site's line at or before the site; \
              the non-ASCII escaped character for the bad-escape mutation); each text and its ASCII twin (non-ASCII char → `@`) analysed with check_lsp; every diagnostic's primary range must be start ≤ end ≤ file length, on char boundaries, \
              cover the same chars as the twin's, and, when it spans more than one token, be balanced in (), [] and {{}} (a construct never cuts through a bracket pair); weak locality only for rename-of-a-use and bad-escape on pure-ASCII texts; \
-             plus a generated family of {} erroneous expressions whose offending construct begins or ends with a parenthesised operand, callee or receiver, in three statement forms, with the same variants and oracle (locality: the diagnostic must be on the expression's line). \
+             plus a generated family of {} erroneous expressions whose offending construct begins or ends with a parenthesised operand, callee or receiver, in three statement forms, with the same variants and oracle (locality: the diagnostic must be on the expression's line); plus {} two-file programs (an implementation of an imported / prelude interface that misses methods, a wrong argument for an imported function, an unknown field of an imported type) whose primary location must be readable in the file its id names and lie in one of the places the error concerns. \
              Non-trivial = comparable pair with non-ASCII text before the end of some main-file diagnostic (distinct by text hash)",
             fs.len() - 5.min(fs.len()),
             fs.iter().filter(|i| !c[**i].name.starts_with("hand/")).map(|i| c[*i].text.len()).max().unwrap_or(0),
             muts,
             NVAR,
             VARIANTS,
-            paren_family().len()
+            paren_family().len(),
+            cross_file_cases().len()
         )
     }
     fn assumptions(&self) -> Vec<String> {
